@@ -2,6 +2,229 @@
 
 package main
 
-import "github.com/theparanoids/ysshra/internal/zzverif/ev"
+import (
+	"fmt"
+	"strings"
 
-func checkC09(c *ev.Ctx) { c.Cap("not implemented") }
+	"github.com/theparanoids/ysshra/internal/zzverif/bfs"
+	"github.com/theparanoids/ysshra/internal/zzverif/ev"
+)
+
+// c09World drives two real shims in lock-step — no-upstream mode on (n) and off (u) — over two identical underlying
+// agents with the same history, and checks absolute listing formulas in both plus the differential relation.
+type c09World struct {
+	n, u *shimWorld
+	c    *ev.Ctx
+}
+
+func newC09World(c *ev.Ctx, root string) bfs.World {
+	_, init := parseRoot(root)
+	return &c09World{n: newShimWorld(true, init, nil), u: newShimWorld(false, init, nil), c: c}
+}
+
+func (x *c09World) Init() []bfs.Finding { return nil }
+func (x *c09World) Close() { x.n.Close(); x.u.Close() }
+func (x *c09World) Key() string {
+	return "N[" + x.n.baseKey() + "] U[" + x.u.baseKey() + "]"
+}
+
+func (x *c09World) Enabled() []bfs.Op {
+	var ops []bfs.Op
+	o := func(n string, args ...string) {
+		for _, a := range args {
+			ops = append(ops, bfs.Op{Name: n, Arg: a})
+		}
+	}
+	ops = append(ops, bfs.Op{Name: "List"}, bfs.Op{Name: "Signers"})
+	o("Add", "y.touch", "K1", "y.nonce", "y.inagent", "n.missing", "n.free", "y.default", "n.inconsistent", "n.empty", "y.tlsudo", "y.headless", "n.ver2")
+	o("AddHardCert", "h1", "y.touch", "h2")
+	o("Sign", "y.touch", "K1", "n.missing", "h1", "y.nonce", "n.free", "y.inagent")
+	o("Remove", "y.touch", "K1", "h1", "n.free")
+	ops = append(ops, bfs.Op{Name: "RemoveAll"})
+	o("UAdd", "y.ff", "y.sudoinagent")
+	return ops
+}
+
+// hidden: the property's own definition of what no-upstream mode hides.
+func hidden(i *ident) bool { return i != nil && i.cert != nil && i.ysshca }
+
+func (x *c09World) Apply(op bfs.Op) (fs []bfs.Finding) {
+	add := func(key, desc string) { fs = append(fs, bfs.Finding{Key: "C09:" + key, Desc: desc}) }
+	id := idents[op.Arg]
+	memBefore := map[string]bool{}
+	for _, b := range x.n.memBlobs() {
+		memBefore[string(b)] = true
+	}
+	uaHadBefore := id != nil && x.n.ua.Ring.Has(id.blob)
+	rn, ru := x.n.exec(op), x.u.exec(op)
+	for _, r := range []opResult{rn, ru} {
+		if r.panic != "" {
+			add("panic:"+ev.PanicSite(r.panic), r.panic)
+			return
+		}
+	}
+	// the two underlying agents must stay identical: hiding never changes what an operation does to ground truth
+	if a, b := x.n.ua.Ring.Canon(nameOf), x.u.ua.Ring.Canon(nameOf); a != b {
+		add("underlying-diverges:"+op.Name, fmt.Sprintf("after %s(%s) the underlying agents differ: no-upstream %s vs upstream %s", op.Name, op.Arg, a, b))
+		return
+	}
+	if a, b := fmt.Sprint(names(x.n.memBlobs())), fmt.Sprint(names(x.u.memBlobs())); a != b {
+		add("memory-diverges:"+op.Name, fmt.Sprintf("after %s(%s) the in-memory tables differ: no-upstream %s vs upstream %s", op.Name, op.Arg, a, b))
+		return
+	}
+	switch op.Name {
+	case "List", "Signers":
+		var bn, bu [][]byte
+		if op.Name == "List" {
+			bn, bu = keyBlobs(rn.keys), keyBlobs(ru.keys)
+		} else {
+			bn, bu = signerBlobs(rn.signers), signerBlobs(ru.signers)
+		}
+		if rn.err != nil || ru.err != nil {
+			add("listing-error", fmt.Sprintf("%s failed: %v / %v", op.Name, rn.err, ru.err))
+			return
+		}
+		gotN, gotU := setOf(bn), setOf(bu)
+		mem := setOf(x.n.memBlobs())
+		nHidden := 0
+		wantN, wantU := map[string]int{}, map[string]int{}
+		for b, k := range mem {
+			wantN[b] += k
+			wantU[b] += k
+		}
+		for _, b := range x.n.uaBlobs() {
+			wantU[string(b)]++
+			if hidden(identsBy[string(b)]) {
+				nHidden++
+			} else {
+				wantN[string(b)]++
+			}
+		}
+		for b, k := range wantU {
+			if gotU[b] != k {
+				add("upstream-mode:listing-differs-from-ground-truth", fmt.Sprintf("with the mode off %s returns %s x%d, ground truth + memory says x%d", op.Name, nameOf([]byte(b)), gotU[b], k))
+			}
+		}
+		for b, k := range gotU {
+			if wantU[b] != k {
+				add("upstream-mode:listing-differs-from-ground-truth", fmt.Sprintf("with the mode off %s returns %s x%d, ground truth + memory says x%d", op.Name, nameOf([]byte(b)), k, wantU[b]))
+			}
+		}
+		for b, k := range gotN {
+			if wantN[b] < k {
+				i := identsBy[b]
+				if hidden(i) {
+					add("noupstream:lists-ysshca-cert:"+op.Name, fmt.Sprintf("in no-upstream mode %s returns the underlying agent's YSSHCA certificate %s", op.Name, nameOf([]byte(b))))
+				} else {
+					add("noupstream:unexpected:"+op.Name, fmt.Sprintf("in no-upstream mode %s returns %s x%d, expected x%d", op.Name, nameOf([]byte(b)), k, wantN[b]))
+				}
+			}
+		}
+		for b, k := range wantN {
+			if gotN[b] < k {
+				what := "identity"
+				if i := identsBy[b]; i != nil && i.cert != nil && !i.ysshca {
+					what = "certificate with a non-YSSHCA KeyID"
+				} else if mem[b] > 0 {
+					what = "in-memory hardware certificate"
+				} else if i != nil && i.cert == nil {
+					what = "plain key"
+				}
+				add("noupstream:hides-too-much:"+strings.ReplaceAll(what, " ", "-")+":"+op.Name, fmt.Sprintf("in no-upstream mode %s does not return the %s %s (x%d, expected x%d)", op.Name, what, nameOf([]byte(b)), gotN[b], k))
+			}
+		}
+		if nHidden > 0 {
+			x.c.Nontrivial(fmt.Sprintf("%s|%v|%v", op.Name, names(x.n.uaBlobs()), names(x.n.memBlobs())))
+			x.c.Count("listings_with_hidden_certs", 1)
+		}
+		x.c.Outcome(fmt.Sprintf("%s/hidden=%d/mem=%d", op.Name, nHidden, len(mem)))
+	case "Sign":
+		mustRefuse := hidden(id) && !memBefore[string(id.blob)] && uaHadBefore
+		if mustRefuse {
+			x.c.Nontrivial("sign-hidden|" + op.Arg + fmt.Sprint(names(x.n.uaBlobs())))
+			if rn.err == nil {
+				add("noupstream:signs-with-hidden-cert", fmt.Sprintf("in no-upstream mode Sign(%s) succeeded with an underlying YSSHCA certificate", op.Arg))
+			} else if !strings.Contains(rn.err.Error(), "not found") {
+				add("noupstream:hidden-sign-wrong-error", fmt.Sprintf("in no-upstream mode Sign(%s) failed with %q, expected key-not-found", op.Arg, rn.err))
+			}
+			if ru.err != nil {
+				add("upstream-mode:sign-fails", fmt.Sprintf("with the mode off Sign(%s) failed: %v", op.Arg, ru.err))
+			}
+		} else if !(hidden(id) && !memBefore[string(id.blob)]) {
+			// everything else behaves as with the mode off
+			if errClass(rn.err) != errClass(ru.err) {
+				add("noupstream:sign-differs:"+kindY(id), fmt.Sprintf("Sign(%s): no-upstream %v, upstream %v", op.Arg, rn.err, ru.err))
+			}
+		}
+		for _, r := range []opResult{rn, ru} {
+			if r.err == nil && r.sig != nil {
+				if verr := id.pub.Verify(r.data, r.sig); verr != nil {
+					add("sign:bad-signature", fmt.Sprintf("Sign(%s): signature does not verify: %v", op.Arg, verr))
+				}
+			}
+		}
+		x.c.Outcome(fmt.Sprintf("Sign/%s/mustRefuse=%v/%s/%s", kindY(id), mustRefuse, errClass(rn.err), errClass(ru.err)))
+	case "Remove":
+		if errClass(rn.err) != errClass(ru.err) {
+			add("noupstream:remove-differs:"+kindY(id), fmt.Sprintf("Remove(%s): no-upstream %v, upstream %v", op.Arg, rn.err, ru.err))
+		}
+		if hidden(id) && uaHadBefore {
+			x.c.Nontrivial("remove-hidden|" + op.Arg)
+			if rn.err != nil {
+				add("noupstream:cannot-remove-hidden", fmt.Sprintf("Remove(%s) of a hidden certificate failed: %v", op.Arg, rn.err))
+			}
+			if x.n.ua.Ring.Has(id.blob) {
+				add("noupstream:hidden-not-removed", fmt.Sprintf("Remove(%s) left the hidden certificate in the underlying agent", op.Arg))
+			}
+		}
+	default:
+		if errClass(rn.err) != errClass(ru.err) {
+			add("noupstream:op-differs:"+op.Name, fmt.Sprintf("%s(%s): no-upstream %v, upstream %v", op.Name, op.Arg, rn.err, ru.err))
+		}
+	}
+	return
+}
+
+func kindY(i *ident) string {
+	switch {
+	case i == nil:
+		return "none"
+	case i.cert == nil:
+		return "plain"
+	case i.ysshca:
+		return "ysshca"
+	}
+	return "other-cert"
+}
+
+func checkC09(c *ev.Ctx) {
+	setupFixtures()
+	for _, n := range []string{"y.touch", "y.touchless", "y.tlsudo", "y.ff", "y.nonce", "y.inagent", "y.sudoinagent", "y.headless", "y.default", "h1", "h2"} {
+		if !idents[n].ysshca {
+			c.Violation("C09:harness:fixture", "fixture "+n+" does not decode as a YSSHCA KeyID", nil)
+		}
+	}
+	for _, n := range []string{"n.missing", "n.ver2", "n.inconsistent", "n.free", "n.empty"} {
+		if idents[n].ysshca {
+			c.Violation("C09:harness:fixture", "near-miss fixture "+n+" decodes as a YSSHCA KeyID", nil)
+		}
+	}
+	c.Rule("E1 BFS, two real shims (no-upstream on/off) driven in lock-step over identical underlying agents: Add(12: YSSHCA KeyIDs of every type, near misses missing-field/version-2/inconsistent, free text, empty, plain key), AddHardCert(3, one equal to an underlying YSSHCA certificate), Remove(4), RemoveAll, List, Signers, Sign(7), certificates added behind the shim's back; roots = all 16 subsets of a 4-identity generating set; oracle: absolute multiset formulas against ground truth and the reflected memory table in both modes. non-trivial = listing with >=1 hidden certificate, or sign/remove naming a hidden certificate; distinct by (operation, underlying set, memory set)")
+	c.Assume("Y(x) is the property's own definition: keyid.Unmarshal accepts x.KeyId (evaluated once per fixture)", "both worlds are built from the same fixtures")
+	gen := []string{"K1", "y.touch", "n.missing", "y.inagent"}
+	var roots []string
+	for m := 0; m < 16; m++ {
+		var s []string
+		for i, g := range gen {
+			if m&(1<<i) != 0 {
+				s = append(s, g)
+			}
+		}
+		roots = append(roots, "both:"+strings.Join(s, ","))
+	}
+	depth := 3
+	if c.Thorough() {
+		depth = 5
+	}
+	runBFS(c, func(root string) bfs.World { return newC09World(c, root) }, roots, depth, 0)
+}
